@@ -13,7 +13,7 @@
 //! 3^K maps over keys `0..K` x values {1,2}.
 //!
 //! Program sets (`<set>`):
-//! * `single` — 66 programs, K=3: map, filter_map, mapi, filter_mapi, 4 x fold (update x
+//! * `single` — 74 programs, K=3: map, filter_map, mapi, filter_mapi, 2 x kfold (keyed accumulator), 4 x fold (update x
 //!   revert_to_init), 4 x ClosureFold (pairwise cover of update / revert / initial) on bt, rc,
 //!   om, om+shared; filter_mapi / fold.u0r1 / fold.u1r0 again with `via`; partition,
 //!   partition_mapi (+via) on om, om+shared.
@@ -142,6 +142,8 @@ fn single_programs(k: u8) -> Vec<Prog> {
         }
         out.push(p(Op::Fold { update: false, revert: true }, mt, shared, true));
         out.push(p(Op::Fold { update: true, revert: false }, mt, shared, true));
+        out.push(p(Op::KFold { revert: false }, mt, shared, false));
+        out.push(p(Op::KFold { revert: true }, mt, shared, true));
         for (update, revert, initial) in [(false, false, false), (true, true, false), (false, true, true), (true, false, true)] {
             out.push(p(Op::CFold { update, revert, initial }, mt, shared, false));
         }
@@ -197,6 +199,7 @@ fn programs(family: &str) -> Vec<Prog> {
                     && match p.op {
                         Op::FilterMapi | Op::PartitionMapi => true,
                         Op::Fold { update, revert } => update != revert,
+                        Op::KFold { revert } => !revert,
                         Op::CFold { update, initial, .. } => update && initial,
                         _ => false,
                     }
